@@ -1,59 +1,119 @@
 """Token-level three-way merge: carries the annotations (base -> annotated: only ghost tokens are
-inserted) onto the current repository text (base -> current: whatever changed in /repo)."""
-import os
-import subprocess
-import tempfile
+inserted, base = erase(annotated)) onto the current repository text (base -> current: whatever
+changed in /repo).
+
+Because base -> annotated is insertion-only and the eraser reports which annotated token each
+base token came from, the merge is exact about *what* is inserted; the only heuristic is *where* a
+ghost run goes when its neighbourhood changed in /repo:
+  * base and current are aligned by their common prefix/suffix; the middle is aligned by difflib;
+  * a run whose left neighbour survives is placed right after it; otherwise before its surviving
+    right neighbour; a run starting with a closing bracket prefers its right-hand side (it closes
+    something that may have grown), any other run prefers its left-hand side;
+  * a run strictly inside a replaced block whose both neighbours changed is a conflict.
+Whatever the placement, the caller re-runs the erasure check on the result (erase(merged) must
+equal the current text token for token), so a wrong placement can only lead to exit 2.
+"""
+import difflib
+
+from . import erase as E
 
 
 class MergeConflict(Exception):
     pass
 
 
-def _enc(t):
-    return t.replace("\\", "\\\\").replace("\n", "\\n")
-
-
-def _dec(t):
-    out, i = [], 0
-    while i < len(t):
-        if t[i] == "\\" and i + 1 < len(t):
-            out.append("\n" if t[i + 1] == "n" else t[i + 1])
-            i += 2
-        else:
-            out.append(t[i])
-            i += 1
-    return "".join(out)
+def _align(base, cur):
+    """-> list m of len(base): m[i] = index in cur matched to base[i], or None"""
+    n, k = len(base), len(cur)
+    p = 0
+    while p < n and p < k and base[p] == cur[p]:
+        p += 1
+    s = 0
+    while s < n - p and s < k - p and base[n - 1 - s] == cur[k - 1 - s]:
+        s += 1
+    m = [None] * n
+    for i in range(p):
+        m[i] = i
+    for i in range(s):
+        m[n - 1 - i] = k - 1 - i
+    mb, mc = base[p:n - s], cur[p:k - s]
+    if mb and mc:
+        sm = difflib.SequenceMatcher(None, mb, mc, autojunk=False)
+        for a, b, size in sm.get_matching_blocks():
+            # ignore tiny accidental matches of pure punctuation inside a rewritten block
+            if size == 0:
+                continue
+            if size <= 2 and all(not (t[0].isalnum() or t[0] == "_") for t in mb[a:a + size]):
+                continue
+            for q in range(size):
+                m[p + a + q] = p + b + q
+    return m
 
 
 def merge3(base, ann, cur):
-    """all arguments are token lists; returns the merged token list or raises MergeConflict."""
-    d = tempfile.mkdtemp(prefix="vxmerge")
-    try:
-        paths = {}
-        for name, toks in (("cur", cur), ("base", base), ("ann", ann)):
-            p = os.path.join(d, name)
-            with open(p, "w") as f:
-                f.write("".join(_enc(t) + "\n" for t in toks))
-            paths[name] = p
-        r = subprocess.run(["git", "merge-file", "-p", "--diff3", paths["cur"], paths["base"], paths["ann"]],
-                           capture_output=True, text=True)
-        if r.returncode != 0:
-            raise MergeConflict("git merge-file: %d conflict(s)\n%s" % (r.returncode, _conflict_excerpt(r.stdout)))
-        return [_dec(l) for l in r.stdout.split("\n") if l != ""]
-    finally:
-        for f in os.listdir(d):
-            os.unlink(os.path.join(d, f))
-        os.rmdir(d)
-
-
-def _conflict_excerpt(text):
-    lines = text.split("\n")
+    """base is ignored except for a consistency check: it must equal erase(ann)."""
+    pairs = E.erase_idx(ann)
+    b2 = [t for t, _ in pairs]
+    if b2 != base:
+        raise MergeConflict("internal: base != erase(annotated)")
+    n = len(base)
+    # insertion runs: gap g (0..n) = ghost tokens of ann between base[g-1] and base[g]
+    idx = [ix for _, ix in pairs]
+    runs = {}
+    prev = -1
+    for g in range(n + 1):
+        nxt = None
+        if g < n:
+            nxt = idx[g]
+            if nxt is None:
+                # synthesised token (exec const '=' / ';'): no ghost run can be attached here
+                continue
+        else:
+            nxt = len(ann)
+        if nxt < prev + 1:
+            raise MergeConflict("internal: eraser indices not monotone")
+        run = ann[prev + 1:nxt]
+        if run:
+            runs[g] = run
+        prev = nxt if g < n else prev
+    m = _align(base, cur)
+    # where do the runs go in cur?  after[c] = runs placed after cur[c] (c = -1: at the very start)
+    after = {}
+    for g, run in runs.items():
+        left = m[g - 1] if g > 0 else -1
+        right = m[g] if g < n else len(cur)
+        closing = run[0] in ("}", ")", "]")
+        if g == 0:
+            pos = -1
+        elif g == n:
+            pos = len(cur) - 1
+        elif left is not None and right is not None:
+            pos = (right - 1) if closing else left
+        elif left is not None:
+            if closing:
+                # extend over the rewritten block up to the next surviving base token
+                q = g
+                while q < n and m[q] is None:
+                    q += 1
+                pos = (m[q] - 1) if q < n else len(cur) - 1
+            else:
+                pos = left
+        elif right is not None:
+            if closing:
+                pos = right - 1
+            else:
+                q = g - 1
+                while q >= 0 and m[q] is None:
+                    q -= 1
+                pos = m[q] if q >= 0 else -1
+        else:
+            raise MergeConflict("annotation `%s` sits inside rewritten text: %s" % (" ".join(run[:12]), " ".join(base[max(0, g - 6):g + 6])))
+        after.setdefault(pos, []).append((g, run))
     out = []
-    for i, l in enumerate(lines):
-        if l.startswith("<<<<<<<"):
-            out.append(" ".join(lines[max(0, i - 8):i]))
-            j = i
-            while j < len(lines) and not lines[j].startswith(">>>>>>>"):
-                j += 1
-            out.append(" ".join(lines[i:j + 1]))
-    return "\n".join(out[:6])
+    for g, run in sorted(after.get(-1, [])):
+        out.extend(run)
+    for c, t in enumerate(cur):
+        out.append(t)
+        for g, run in sorted(after.get(c, [])):
+            out.extend(run)
+    return out
